@@ -29,6 +29,8 @@ class E(A(int), B(int), C(int, int), D) {}
 
 class W(X(E), Y(E), Z(int, E)) {}
 
+class V(L(P), R(P), T(P, int), N) {}
+
 class Opt<T>(Non, Som(T)) {
   method <R> map(f: (T) -> R): Opt<R> =
     match this {
@@ -197,9 +199,12 @@ class ScopeGen:
         if k < 55:   # match on E
             self.feat('match')
             return self.match_E(bound, ints, depth)
-        if k < 65:   # match on W: nested patterns
+        if k < 62:   # match on W: nested patterns
             self.feat('nested-match')
             return self.match_W(bound, ints, depth)
+        if k < 65:   # match on V: struct patterns (object / tuple form) inside the alternatives of an or-pattern
+            self.feat('struct-in-or-pattern')
+            return self.match_V(bound, ints, depth)
         if k < 73:   # if let
             self.feat('if-let')
             form = r.below(3)
@@ -274,6 +279,31 @@ class ScopeGen:
             left = [v for v in left if v not in vs]
         return '(match %s { %s })' % (scrut, ', '.join(arms))
 
+    def pP(self, x, slot):
+        """a pattern over the struct P binding x to field `slot` (0 = a, 1 = b), in object or tuple form"""
+        r = self.r
+        form = r.below(3)
+        if form == 0:
+            return '(%s, _)' % x if slot == 0 else '(_, %s)' % x
+        other = 'b as _' if slot == 0 else 'a as _'
+        mine = '%s as %s' % ('ab'[slot], x)
+        parts = [mine, other] if form == 1 else [other, mine]         # written in and out of field order
+        return '{ %s }' % ', '.join(parts)
+
+    def match_V(self, bound, ints, depth):
+        r = self.r
+        scrut = r.pick(['V.L(P.init(%s, %s))', 'V.R(P.init(%s, %s))', 'V.T(P.init(%s, %s), 1)']) % (self.atom(ints), self.atom(ints))
+        x = self.name(bound)
+        vs = r.shuffle(['L', 'R', 'T'])[:r.range(2, 3)]
+        alts = []
+        for v in vs:
+            p = self.pP(x, r.below(2))
+            alts.append('%s(%s)' % (v, p) if v != 'T' else 'T(%s, _)' % p)
+        self.feat('or-pattern')
+        arms = ['%s -> %s' % (' | '.join(alts), self.gi(bound | {x}, ints + [x], depth - 2)),
+                '_ -> %s' % self.gi(bound, ints, depth - 2)]
+        return '(match %s { %s })' % (scrut, ', '.join(arms))
+
     def match_W(self, bound, ints, depth):
         r = self.r
         scrut = self.gW(bound, ints, depth - 1)
@@ -343,7 +373,7 @@ class ScopeGen:
         return PRELUDE + '\n' + cls_m + '\nclass Main {\n' + '\n'.join(funs) + '\n' + main + '\n}\n'
 
 
-def gen_scope_program(rng, allow_known=False, depth=4, nfun=5, allow_as_same=False):
+def gen_scope_program(rng, allow_known=True, depth=4, nfun=5, allow_as_same=False):
     g = ScopeGen(rng, allow_known=allow_known, depth=depth, nfun=nfun, allow_as_same=allow_as_same)
     text = g.program()
     return {'sources': {'Main': text}, 'entry': 'Main', 'features': dict(g.features)}
